@@ -1,6 +1,7 @@
 import CloakModel.Props.C12Close
 import CloakModel.Lemmas.LocksCore
 import CloakModel.Gen.MuxLocks
+import CloakModel.Gen.Valve
 
 /-! # C12 — the multiplexing layer's own locks cannot deadlock
 
@@ -19,10 +20,19 @@ the answer to "deadlocks between the stream table lock, the accept queue and the
 Assumptions (stated, not proved): a loop body is counted once; `sync.Cond.Wait` (which releases and re-takes `L`)
 returns. The one channel operation performed under `streamsM` (`acceptCh <- newStream`) is a non-blocking `select`
 case since fix 31ee1ad (`Gen.Session.recvEnqueueNonBlocking`, `C12.c12_backlog_bounded`); before that fix it could
-park the receive loop inside the critical section for ever — the red team's accept-backlog finding. -/
+park the receive loop inside the critical section for ever — the red team's accept-backlog finding. 
+Since /repo's fix 07566d1 `send` begins with a turnstile — a channel of capacity one around the broken test and the limiter's
+wait. It is not a mutex and not in the rank order; `gen_send_prologue` pins what the argument needs: the prologue is exactly one
+of the two known shapes, so while the turn is held no lock is taken and nothing blocks but the limiter's bounded sleep; a sender
+arrives at it holding at most its stream's `writingM`. -/
 set_option maxRecDepth 100000
 
 namespace C12L
+
+/-- `send`'s prologue is the bare `txWait` or the turnstile around it (`tools/extract/facts_glue.go: sendPrologue`): no lock
+acquisition inside the turn -/
+theorem gen_send_prologue : Gen.Valve.txWaitBeforeWrite = true := by decide
+
 open Locks
 
 /-- acquisition contexts of a program: for every acquisition, the locks held at that moment -/
